@@ -17,6 +17,8 @@ PLACEMENTS = {
     "else_branch": "vd :: fn do end\nstart :: fn do\n    if 1 < 2 do\n        pr(1)\n    else\n        y := CORE\n    end\n    pr(0)\nend\n",
     "loop_body": "vd :: fn do end\nstart :: fn do\n    loop 1 < 2 do\n        y := CORE\n        break\n    end\nend\n",
     "call_argument": "vd :: fn do end\nstart :: fn do\n    pr(CORE)\nend\n",
+    "after_return": "vd :: fn do end\nstart :: fn do\n    pr(1)\n    if 1 < 2 do\n        ret\n    end\n    ret\n    x := CORE\n    pr(2)\nend\n",
+    "after_return_in_branch": "vd :: fn do end\nhalf :: fn c: bool -> int do\n    if c do\n        ret 1\n        y := CORE\n    end\n    ret 2\nend\nstart :: fn do\n    pr(half(true))\nend\n",
     "case_arm": "vd :: fn do end\nEn :: enum\n    A int,\n    B,\nend\nstart :: fn do\n    case En.A 1 do\n        A v ->\n            y := CORE\n        end\n        else pr(2) end\n    end\n    pr(0)\nend\n",
     "nested_closure_in_if_in_loop": "vd :: fn do end\nstart :: fn do\n    loop 1 < 2 do\n        if 1 < 2 do\n            c :: fn do\n                y := CORE\n                pr(0)\n            end\n            c()\n        end\n        break\n    end\nend\n",
 }
@@ -214,7 +216,7 @@ def build_jobs(tier):
     jobs = []
     q = tier == "quick"
     lits = ["int", "float", "str", "bool", "nil", "void"] if q else ["int", "float", "str", "bool", "nil", "tuple", "list", "void"]
-    plc = list(PLACEMENTS) if not q else ["global_initialiser", "statement_in_start", "unused_expression_statement", "closure_body", "nested_closure_in_if_in_loop"]
+    plc = list(PLACEMENTS) if not q else ["global_initialiser", "statement_in_start", "unused_expression_statement", "closure_body", "nested_closure_in_if_in_loop", "after_return"]
     for pn in plc:
         ptxt = PLACEMENTS[pn]
         for cn, (core, decls, spec, _) in CORES.items():
@@ -225,9 +227,9 @@ def build_jobs(tier):
             if pn == "call_argument" and cn == "void_in_variable": continue
             jobs.append({"name": "%s@%s" % (cn, pn), "core": cn, "placement": pn, "text": decls + ptxt.replace("CORE", core), "spec": ("CORES", cn), "lits": klits})
         # statement-level cores go where `y := CORE` / `x := CORE` stands
-        if pn in ("statement_in_start", "closure_body", "if_branch", "else_branch", "loop_body", "case_arm", "nested_closure_in_if_in_loop"):
+        if pn in ("statement_in_start", "closure_body", "if_branch", "else_branch", "loop_body", "case_arm", "nested_closure_in_if_in_loop", "after_return", "after_return_in_branch"):
             for cn, (stmt, decls, spec) in STMT_CORES.items():
-                if q and pn not in ("statement_in_start", "nested_closure_in_if_in_loop"): continue
+                if q and pn not in ("statement_in_start", "nested_closure_in_if_in_loop") and not (pn == "after_return" and cn in ("compound_sub_between_aliases", "generic_tuple_result_unused_call", "void_inside_tuple_literal")): continue
                 lines = ptxt.split("\n"); out = []
                 for ln in lines:
                     if "CORE" in ln:
